@@ -22,6 +22,7 @@ def PK (S : Schema) (n : Nat) : Prop :=
       ∧ normK S n k tag v' ver = some (v', ver')
       ∧ (∀ it ∈ items, it.tag = tag)
       ∧ (emitsOne k v = true → items.length = 1)
+      ∧ (k.zeroFaithful = true → v.isZero = false → items ≠ [])
       ∧ (S.decodable k = true → Item.AllInRange items → ∀ (fd : Nat) (rs : List RawItem),
           v.depth ≤ fd → (emitsOne k v = true ∨ htag rs ≠ tag) →
           decK S fd k tag (Cur.of (items.map Item.raw ++ rs)) ver = .ok (v', Cur.of rs, ver'))
@@ -35,6 +36,7 @@ def PSlice (S : Schema) (n : Nat) : Prop :=
       ∧ normSlice S n k tag xs' ver = some (xs', ver')
       ∧ (∀ it ∈ items, it.tag = tag)
       ∧ xs'.length = xs.length
+      ∧ (xs ≠ [] → items ≠ [])
       ∧ (S.decodable k = true → Item.AllInRange items → ∀ (fd : Nat) (rs : List RawItem),
           Val.depthList xs ≤ fd → htag rs ≠ tag →
           decList S fd k tag (Cur.of (items.map Item.raw ++ rs)) ver = .ok (xs', Cur.of rs, ver'))
@@ -81,15 +83,16 @@ theorem pk_scalar (S : Schema) (n : Nat) (k : Kind) (hk : k.scalar = true) (tag 
       ∧ normK S n k tag v' ver = some (v', ver')
       ∧ (∀ it ∈ items, it.tag = tag)
       ∧ (emitsOne k v = true → items.length = 1)
+      ∧ (k.zeroFaithful = true → v.isZero = false → items ≠ [])
       ∧ (S.decodable k = true → Item.AllInRange items → ∀ (fd : Nat) (rs : List RawItem),
           v.depth ≤ fd → (emitsOne k v = true ∨ htag rs ≠ tag) →
           decK S fd k tag (Cur.of (items.map Item.raw ++ rs)) ver = .ok (v', Cur.of rs, ver')) := by
   cases n with
   | zero => simp [normK] at h
   | succ n =>
-    obtain ⟨hv, it, he, ht, he', hn', hd⟩ := scalar_rt S n k hk tag v v' ver ver' h
+    obtain ⟨hv, it, he, ht, he', hn', _, _, _, _, hd⟩ := scalar_rt S n k hk tag v v' ver ver' h
     subst hv
-    refine ⟨[it], he, he', hn', ?_, fun _ => rfl, ?_⟩
+    refine ⟨[it], he, he', hn', ?_, fun _ => rfl, fun _ _ => by simp, ?_⟩
     · intro x hx; rw [List.mem_singleton.1 hx]; exact ht
     · intro _ hr fd rs hfd _
       obtain ⟨f, rfl, -⟩ := fuel_succ (by have := Val.depth_pos v; omega : 0 + 1 ≤ fd)
@@ -137,13 +140,6 @@ theorem normK_slice (S : Schema) (n tag : Nat) (k' : Kind) (v : Val) (ver : Opti
            else none
          | _ => none) := by
   rw [normK.eq_def]; rfl
-
-/-- the dynamic type behind an interface is a definite kind or a non-nil pointer. -/
-def dynValOk (dk : Kind) (x : Val) : Bool :=
-  match dk, x with
-  | .ptr _, .ptr (some _) => true
-  | .ptr _, _ => false
-  | k, _ => k.definite
 
 theorem normK_iface (S : Schema) (n tag : Nat) (v : Val) (ver : Option Ver) :
     normK S (n + 1) .iface tag v ver =
@@ -325,7 +321,7 @@ theorem pk_ptr (S : Schema) (n : Nat) (hK : PK S n) (k' : Kind) (tag : Nat) (v :
     obtain ⟨x', w⟩ := p
     simp only [hx] at h
     obtain ⟨rfl, rfl⟩ := pair_eq (Option.some.inj h)
-    obtain ⟨items, he, he', hn', ht, hl, hd⟩ := hK k' tag x ver x' w hx
+    obtain ⟨items, he, he', hn', ht, hl, _, hd⟩ := hK k' tag x ver x' w hx
     have hone : emitsOne k' x = true := by simp [emitsOne, hdef]
     refine ⟨items, by rw [encK_ptr_some]; exact he, by rw [encK_ptr_some]; exact he',
       by simp only [normK_ptr, hdef, if_true, hn'], ht, fun _ => hl hone, ?_⟩
@@ -346,8 +342,9 @@ theorem pslice_succ (S : Schema) (n : Nat) (hK : PK S n) (hS : PSlice S n) : PSl
   | nil =>
     rw [normSlice_nil] at h
     obtain ⟨rfl, rfl⟩ := pair_eq (Option.some.inj h)
-    refine ⟨[], by rw [encSlice_nil], by rw [encSlice_nil], by rw [normSlice_nil], ?_, rfl, ?_⟩
+    refine ⟨[], by rw [encSlice_nil], by rw [encSlice_nil], by rw [normSlice_nil], ?_, rfl, ?_, ?_⟩
     · intro x hx; cases hx
+    · intro h1; exact absurd rfl h1
     · intro _ _ fd rs hfd hne
       obtain ⟨f, rfl, -⟩ := fuel_succ (by have := Val.depthList_pos []; omega : 0 + 1 ≤ fd)
       simp only [decList, List.map_nil, List.nil_append, Cur.tag_of, ne_eq, hne, not_false_eq_true, if_true]
@@ -364,9 +361,10 @@ theorem pslice_succ (S : Schema) (n : Nat) (hK : PK S n) (hS : PSlice S n) : PSl
     obtain ⟨xs1, ver2⟩ := p
     simp only [hxs] at h
     obtain ⟨rfl, rfl⟩ := pair_eq (Option.some.inj h)
-    obtain ⟨a, he, he', hn', ht, hl, hd⟩ := hK k tag x ver x' ver1 hx
-    obtain ⟨b, hbe, hbe', hbn', hbt, hbl, hbd⟩ := hS k tag xs ver1 xs1 ver2 hdef hxs
-    refine ⟨a ++ b, ?_, ?_, ?_, ?_, ?_, ?_⟩
+    obtain ⟨a, he, he', hn', ht, hl, _, hd⟩ := hK k tag x ver x' ver1 hx
+    obtain ⟨b, hbe, hbe', hbn', hbt, hbl, _, hbd⟩ := hS k tag xs ver1 xs1 ver2 hdef hxs
+    have hone : emitsOne k x = true := by simp [emitsOne, hdef]
+    refine ⟨a ++ b, ?_, ?_, ?_, ?_, ?_, ?_, ?_⟩
     · simp only [encSlice_cons, he, hbe, Res.ok_bind, Res.pure_eq]
     · simp only [encSlice_cons, he', hbe', Res.ok_bind, Res.pure_eq]
     · simp only [normSlice_cons, hn', hbn']
@@ -375,10 +373,12 @@ theorem pslice_succ (S : Schema) (n : Nat) (hK : PK S n) (hS : PSlice S n) : PSl
       · exact ht it h1
       · exact hbt it h1
     · simp only [List.length_cons, hbl]
+    · intro _ hab
+      obtain ⟨it, rfl⟩ := list_len1 (hl hone)
+      simp at hab
     · intro hdec hr fd rs hfd hne
       simp only [Val.depthList] at hfd
       obtain ⟨f, rfl, hf⟩ := fuel_succ hfd
-      have hone : emitsOne k x = true := by simp [emitsOne, hdef]
       obtain ⟨it, rfl⟩ := list_len1 (hl hone)
       have htag : it.tag = tag := ht it (List.mem_singleton.2 rfl)
       have hr2 := (Item.allInRange_append [it] b).1 hr
@@ -401,6 +401,7 @@ theorem pk_slice (S : Schema) (n : Nat) (hS : PSlice S n) (k' : Kind) (tag : Nat
       ∧ encK S (n + 1) (.slice k') tag v' ver = .ok (items, ver')
       ∧ normK S (n + 1) (.slice k') tag v' ver = some (v', ver')
       ∧ (∀ it ∈ items, it.tag = tag)
+      ∧ (v.isZero = false → items ≠ [])
       ∧ (S.decodable (.slice k') = true → Item.AllInRange items → ∀ (fd : Nat) (rs : List RawItem),
           v.depth ≤ fd → (emitsOne (.slice k') v = true ∨ htag rs ≠ tag) →
           decK S fd (.slice k') tag (Cur.of (items.map Item.raw ++ rs)) ver = .ok (v', Cur.of rs, ver')) := by
@@ -414,9 +415,12 @@ theorem pk_slice (S : Schema) (n : Nat) (hS : PSlice S n) (k' : Kind) (tag : Nat
     obtain ⟨xs', w⟩ := p
     simp only [hx] at h
     obtain ⟨rfl, rfl⟩ := pair_eq (Option.some.inj h)
-    obtain ⟨items, he, he', hn', ht, _, hd⟩ := hS k' tag xs ver xs' w hdef hx
+    obtain ⟨items, he, he', hn', ht, _, hnz, hd⟩ := hS k' tag xs ver xs' w hdef hx
     refine ⟨items, by rw [encK_slice]; exact he, by rw [encK_slice]; exact he',
-      by simp only [normK_slice, hdef, if_true, hn'], ht, ?_⟩
+      by simp only [normK_slice, hdef, if_true, hn'], ht, ?_, ?_⟩
+    · intro hz
+      apply hnz
+      intro hxs; subst hxs; simp [Val.isZero] at hz
     intro hdec hr fd rs hfd hne
     have hne : htag rs ≠ tag := by
       rcases hne with h1 | h1
@@ -446,18 +450,22 @@ def PDyn (S : Schema) (n : Nat) : Prop :=
           decDyn S fd d tag0 (Cur.of (items.map Item.raw ++ rs)) ver = .ok (v', Cur.of rs, ver'))
 
 theorem dynValOk_emitsOne {dk : Kind} {x : Val} (h : dynValOk dk x = true) : emitsOne dk x = true := by
-  unfold dynValOk at h
+  cases dk <;> simp_all [dynValOk, emitsOne]
+  rename_i k
+  split at h <;> simp_all
+
+theorem dynValOk_ptr {k : Kind} {x : Val} (h : dynValOk (.ptr k) x = true) : ∃ y, x = .ptr (some y) := by
+  simp only [dynValOk] at h
   split at h
-  · simp [emitsOne]
+  · exact ⟨_, rfl⟩
   · contradiction
-  · simp [emitsOne, h]
 
 theorem dynValOk_norm {S : Schema} {n tag : Nat} {dk : Kind} {x x' : Val} {ver ver' : Option Ver}
     (h : dynValOk dk x = true) (hn : normK S n dk tag x ver = some (x', ver')) :
     dynValOk dk x' = true := by
-  unfold dynValOk at h
-  split at h
-  · rename_i k y
+  cases dk with
+  | ptr k =>
+    obtain ⟨y, rfl⟩ := dynValOk_ptr h
     cases n with
     | zero => rw [normK_zero] at hn; contradiction
     | succ n =>
@@ -471,14 +479,7 @@ theorem dynValOk_norm {S : Schema} {n tag : Nat} {dk : Kind} {x x' : Val} {ver v
         simp only [hx] at hn
         obtain ⟨rfl, -⟩ := pair_eq (Option.some.inj hn)
         rfl
-  · contradiction
-  · rename_i k _ hk
-    unfold dynValOk
-    split
-    · rfl
-    · rename_i k' _ _
-      exact absurd rfl (hk k' _)
-    · exact h
+  | _ => simpa [dynValOk] using h
 
 theorem Res.bind_ptr_inv {r : Res (Val × DecSt)} {y : Val} {st : DecSt}
     (h : (r >>= fun p => (pure (Val.ptr (some p.1), p.2) : Res (Val × DecSt))) = .ok (Val.ptr (some y), st)) :
@@ -503,7 +504,7 @@ theorem pdyn_succ (S : Schema) (n : Nat) (hK : PK S n) : PDyn S (n + 1) := by
   obtain ⟨x', w⟩ := p
   simp only [hx] at h
   obtain ⟨rfl, rfl⟩ := pair_eq (Option.some.inj h)
-  obtain ⟨items, he, he', hn', ht, hl, hd⟩ := hK (S.dyn d).kind tag x ver x' w hx
+  obtain ⟨items, he, he', hn', ht, hl, _, hd⟩ := hK (S.dyn d).kind tag x ver x' w hx
   have hone := dynValOk_emitsOne hok
   refine ⟨x', items, rfl, by rw [encK_iface_some]; exact he, by rw [encK_iface_some]; exact he',
     by simp only [normK_iface, dynValOk_norm hok hx, if_true, hn'], ht, hl hone, ?_⟩
@@ -528,25 +529,21 @@ theorem pdyn_succ (S : Schema) (n : Nat) (hK : PK S n) : PDyn S (n + 1) := by
     have hct : (Cur.of ([it].map Item.raw ++ rs)).tag = tag := by rw [Cur.tag_of, htag_single, hit]
     simp only [decK, hct, ne_eq, not_true_eq_false, if_false] at hdk
     -- the value is a non-nil pointer
-    unfold dynValOk at hok
-    split at hok
-    · rename_i k1 y heq1 heq2
-      cases n with
-      | zero => rw [normK_zero] at hx; contradiction
-      | succ n =>
-        rw [normK_ptr] at hx
-        simp only at hx
-        obtain ⟨_, hx⟩ := ite_eq_some hx
-        cases hy : normK S n k' tag y ver with
-        | none => simp only [hy] at hx; contradiction
-        | some p =>
-          obtain ⟨y', w'⟩ := p
-          simp only [hy] at hx
-          obtain ⟨rfl, rfl⟩ := pair_eq (Option.some.inj hx)
-          have := Res.bind_ptr_inv hdk
-          simp only [this, Res.ok_bind, Res.pure_eq]
-    · contradiction
-    · rename_i hk1 _; exact absurd rfl (hk1 k' _)
+    obtain ⟨y, rfl⟩ := dynValOk_ptr hok
+    cases n with
+    | zero => rw [normK_zero] at hx; contradiction
+    | succ n =>
+      rw [normK_ptr] at hx
+      simp only at hx
+      obtain ⟨_, hx⟩ := ite_eq_some hx
+      cases hy : normK S n k' tag y ver with
+      | none => simp only [hy] at hx; contradiction
+      | some p =>
+        obtain ⟨y', w'⟩ := p
+        simp only [hy] at hx
+        obtain ⟨rfl, rfl⟩ := pair_eq (Option.some.inj hx)
+        have := Res.bind_ptr_inv hdk
+        simp only [this, Res.ok_bind, Res.pure_eq]
   | _ =>
     rw [hk] at hd hok hx hdyn
     have hdk := hd hdyn.2 hr f rs (by omega) (Or.inl (by rw [← hk]; exact hone))
